@@ -94,6 +94,13 @@ def build(backend, tables=True, profile="release", features=()):
     return binp
 
 
+def nz_filter(ops):
+    """the operations available in a ".nz" build (no zeroize feature, hence no ed25519-dalek, whose `alloc` feature would
+    switch curve25519-dalek's zeroize back on through feature unification)"""
+    gone = ("sig.", "tot.", "serde.", "ff.", "grp.", "mem.")
+    return [o for o in ops if not o["op"].startswith(gone) and o["op"] not in ("rng.signing_key", "const.public")]
+
+
 def build_stepper():
     """compile tools/stepper.c (ptrace single-stepper for C10); returns the binary path"""
     os.makedirs(BUILD, exist_ok=True)
